@@ -4,6 +4,7 @@
 import SV.TxCache.EvictPost
 import SV.GenProofs.TxThresholds
 import SV.GenProofs.Config
+import SV.TxCache.ReachableSize
 namespace SV.Props.C06
 open SV SV.TxCache
 
@@ -53,5 +54,36 @@ theorem holds_for_every_accepted_configuration (U : Bytes → Tx) (p : Pool) (t 
     ((evict Variant.current p).exceeded = false ∨ ((evict Variant.current p).byHash = [] ∧ (evict Variant.current p).lists = [])) := by
   have hb := GenProofs.txAccepted_bounds p.cfg nameLen numChunks hacc
   exact ⟨ListsInv.addTx Variant.current p t hi hb.2.2.2.2.2.1, evict_post U p h hso hb.2.2.2.2.2.2.2.2.2⟩
+
+/-! ### end to end: every pool reachable from the empty one by ANY history, every configuration accepted by `NewTxCache`;
+    the hypotheses `Inv`, `ListsSorted`, `ListsInv`, `1 ≤ numItemsToEvict` of the single-step statements above are discharged
+    (SV/TxCache/ReachableSize.lean) -/
+/-- per-sender count bound and strict order of every sender list of every reachable pool -/
+theorem every_reachable_sender_list_bounded (U : Bytes → Tx) (cfg : Config) (ops : List Op) (nameLen numChunks : Nat)
+    (hacc : GenProofs.txAccepted cfg nameLen numChunks = true) (hw : ∀ t, Op.add t ∈ ops → WfTx U t)
+    (s : Bytes) (l : List Tx) (hm : (s, l) ∈ (run cfg ops).lists) :
+    ListSorted l ∧ 1 ≤ l.length ∧ l.length ≤ cfg.countPerSender ∧ 1 ≤ cfg.countPerSender ∧ ∀ t ∈ l, t.sender = s :=
+  reachable_sender_lists U cfg ops nameLen numChunks hacc hw s l hm
+/-- pool-wide bounds at EVERY insertion point of EVERY history (as reported by the unsigned counters) -/
+theorem pool_bounds_at_every_add_of_every_history (U : Bytes → Tx) (cfg : Config) (ops : List Op)
+    (nameLen numChunks : Nat) (hacc : GenProofs.txAccepted cfg nameLen numChunks = true)
+    (hw : ∀ t, Op.add t ∈ ops → WfTx U t) (he : cfg.evictionEnabled = true)
+    (pre post : List Op) (t : Tx) (hsplit : ops = pre ++ Op.add t :: post) :
+    let p' := run cfg (pre ++ [Op.add t])
+    clampNat p'.cntTx ≤ cfg.countThreshold + 1 ∧ clampNat p'.cntSenders ≤ cfg.countThreshold + 1 ∧
+    clampNat p'.numBytes ≤ cfg.numBytesThreshold + t.size :=
+  reachable_pool_bounds_at_every_add_of_history U cfg ops nameLen numChunks hacc hw he pre post t hsplit
+/-- eviction of ANY reachable pool ends within the three thresholds (no "or empty" escape) -/
+theorem eviction_of_every_reachable_pool_ends_within (U : Bytes → Tx) (cfg : Config) (ops : List Op) (nameLen numChunks : Nat)
+    (hacc : GenProofs.txAccepted cfg nameLen numChunks = true) (hw : ∀ t, Op.add t ∈ ops → WfTx U t) :
+    let q := evict Variant.current (run cfg ops)
+    q.exceeded = false ∧ q.cntTx ≤ (cfg.countThreshold : Int) ∧ q.cntSenders ≤ (cfg.countThreshold : Int) ∧
+    q.numBytes ≤ (cfg.numBytesThreshold : Int) :=
+  reachable_within_thresholds_after_eviction U cfg ops nameLen numChunks hacc hw
+/-- eviction disabled: no history ever loses another sender's transactions to an insertion -/
+theorem no_history_drops_pool_wide_when_disabled (cfg : Config) (ops : List Op) (he : cfg.evictionEnabled = false)
+    (t : Tx) (s : Bytes) (hs : s ≠ t.sender) :
+    alookup s (addTx Variant.current (run cfg ops) t).1.lists = alookup s (run cfg ops).lists :=
+  reachable_no_pool_wide_drop_when_disabled cfg ops he t s hs
 
 end SV.Props.C06
